@@ -10,5 +10,6 @@ CONSTANTS
   Alpha = "A"
   MaxLen = 0
   TailLen = 0
+  DeepReps = {}
 INVARIANT NotPropagationPreservesMeaning
 INVARIANT AtMostOneTopNot
